@@ -197,6 +197,25 @@ type BindingOpts struct {
 	// MinSeq: producers must have executed at or after this event seq, unless
 	// their function is run-once (memoised result from an earlier call).
 	MinSeq int
+	// Via lists the declared inputs of a redefined function through which
+	// the caller's values reach the original functions: the redefined
+	// function is itself a function whose parameter R may legitimately be
+	// bound to a supplied value L (MAY(L,R)); it then hands the value on
+	// under R's name (or as a type-only value). A binding L -> P is therefore
+	// also accepted when it factors as L -> R -> P for some R in Via.
+	Via []Label
+}
+
+func mayVia(src, p Label, via []Label) bool {
+	if may(src, p) {
+		return true
+	}
+	for _, r := range via {
+		if may(src, r) && may(Label{Name: r.Name, Type: src.Type, Sub: r.Sub}, p) {
+			return true
+		}
+	}
+	return false
 }
 
 // checkBinding returns violation messages for the events.
@@ -213,7 +232,7 @@ func checkBinding(w *World, events []*Event, o BindingOpts) []string {
 				out = append(out, fmt.Sprintf("f%d exec %d param %v: unknown id %d", ev.Func, ev.Exec, a.Param, a.ID))
 				continue
 			}
-			if !may(org.Label, a.Param) {
+			if !mayVia(org.Label, a.Param, o.Via) {
 				out = append(out, fmt.Sprintf("f%d exec %d param %v: mis-labelled source %v (%s)", ev.Func, ev.Exec, a.Param, org.Label, originStr(org)))
 			}
 			// type check: the concrete type must be assignable to the parameter type
